@@ -224,6 +224,27 @@ def suites(tier, seed):
             cnf.append(grp)
         # limits for one tag must be consistent
         add_cnf(cnf)
+    # empty alternatives: an empty --tags= value next to other arguments, and a leading / trailing / doubled comma inside one
+    # argument. An empty alternative carries no negation prefix, so it is an ordinary (never satisfied) alternative: 'a,' means a,
+    # ['a,b', ''] selects nothing. Only shapes whose other parts force the old dialect are asked of auto_detect.
+    EMPTY = (False, "", ("", False), None)
+    bases = [[(False, "a", ("", False), None)], [(False, "a", ("", True), None), (False, "foo", ("", False), None)],
+             [(True, "a", ("-", False), None)], [(True, "foo", ("~", True), None), (False, "b.c", ("", False), None)]]
+    for bi, base in enumerate(bases):
+        for where in ("trailing", "leading", "inner"):
+            grp = {"trailing": base + [EMPTY], "leading": [EMPTY] + base, "inner": base[:1] + [EMPTY] + base[1:]}[where]
+            for extra in ([], [[(False, "b.c", ("", False), None)]], [[(True, "x-y=1", ("-", False), None)]]):
+                cnf = [grp] + extra
+                parts = render_cnf(cnf)
+                for proto in ("v1", "auto"):
+                    cases.append({"kind": "cnf", "cnf": cnf, "text": parts, "protocol": proto})
+                    cases.append({"kind": "cnf", "cnf": cnf, "text": " ".join(parts), "protocol": proto})
+        forced = len(base) > 1 or base[0][0]          # a comma or a negation prefix: the old dialect also under auto_detect
+        for cnf in ([base, [EMPTY]], [[EMPTY], base], [base, [EMPTY], [(False, "b.c", ("", False), None)]]):
+            cases.append({"kind": "cnf", "cnf": cnf, "text": render_cnf(cnf), "protocol": "v1"})
+            if forced:
+                cases.append({"kind": "cnf", "cnf": cnf, "text": render_cnf(cnf), "protocol": "auto"})
+    cases.append({"kind": "cnf", "cnf": [[EMPTY]], "text": [""], "protocol": "v1"})
     for _ in range(1200 if thorough else 250):
         t = rnd_tree(rnd, rnd.randint(1, 3))
         if t[0] in ("lit",):
